@@ -224,6 +224,20 @@ func VerifC16Teardown(server bool, steps []string) VerifC16TeardownOut {
 		case "t":
 			check()
 			time.Sleep(retryWait + 400*time.Millisecond)
+			// on an overloaded machine the timers' goroutines may lag: every entry that is
+			// still held back now has a timer that is due, so wait (bounded) until none is left
+			if tc, ok := conn.(*tracingHTTP2Conn); ok {
+				for i := 0; i < 500; i++ {
+					tc.collector.mu.Lock()
+					n := len(tc.collector.waiting)
+					tc.collector.mu.Unlock()
+					if n == 0 {
+						break
+					}
+					time.Sleep(10 * time.Millisecond)
+				}
+				time.Sleep(20 * time.Millisecond) // timesUp calls the collector right after its unlock
+			}
 			segment = time.Now()
 		}
 		flush()
